@@ -3,6 +3,7 @@ import json
 
 import numpy as np
 
+import pykoop
 from .. import core, pipes, structural as st
 
 THEOREMS = ['Pk.C01.C01_roundtrip_suffix', 'Pk.C01.C01_roundtrip_ep', 'Pk.C01.C01_roundtrip_full',
@@ -60,6 +61,31 @@ def _oracle(case, est=None):
             want = Xe[n - n_lift:, :case['nx']]
             if not np.array_equal(lead, want):
                 return f'episode {l}: leading lifted-state columns are not the original state'
+    return None
+
+
+def probe_unwrap(rng):
+    """AnglePreprocessor(unwrap_inverse=True) on several episodes: every episode must still come back
+    (angles inside (-pi, pi], any episode count)"""
+    rs = np.random.RandomState(rng.randint(0, 2 ** 31 - 1))
+    n_eps = rng.randint(2, 3)
+    blocks = []
+    for l in range(n_eps):
+        n = rng.randint(4, 7)
+        # smooth angle trajectories inside (-pi, pi]; consecutive episodes start far apart
+        start = 2.8 if l % 2 == 0 else -2.8
+        ang = start + np.cumsum(rs.uniform(-0.05, 0.05, n))
+        ang = np.clip(ang, -3.1, 3.1)
+        blocks.append((l, np.column_stack((ang, rs.uniform(-1, 1, n)))))
+    X = st.ref_combine(blocks, True)
+    lf = pykoop.AnglePreprocessor(angle_features=np.array([0]), unwrap_inverse=True)
+    lf.fit(X, n_inputs=0, episode_feature=True)
+    Xr = lf.inverse_transform(lf.transform(X))
+    if not np.allclose(Xr, X, rtol=1e-9, atol=1e-9):
+        bad = sorted({int(X[i, 0]) for i in range(X.shape[0]) if not np.allclose(Xr[i], X[i], atol=1e-9)})
+        return (f'AnglePreprocessor(unwrap_inverse=True): episodes {bad} do not come back from the round trip (np.unwrap runs '
+                f'across episode boundaries; max error {np.max(np.abs(Xr - X)):.4f} ~ 2*pi)',
+                {'X': X.tolist()}, {'estimator': 'AnglePreprocessor', 'unwrap_inverse': True, 'episodes': n_eps})
     return None
 
 
@@ -126,6 +152,12 @@ def run(ctx):
         why = oracle(fc)
         if why:
             ctx.fail(why, fc, {'kinds': sorted(pipes.kinds_in(c['spec']))})
+
+    for _ in range(ctx.n(2, 10)):
+        res = probe_unwrap(ctx.rng)
+        ctx.count('probe:unwrap_inverse')
+        if res:
+            ctx.fail(*res)
 
     def search(ctx):
         for c in bad[:40]:
